@@ -32,6 +32,8 @@ class Model(LPModel):
         self.aux_ipc = []
         self.cvx_constr = []
         self.ip_constr = []
+        self.pupdate = True
+        self.dupdate = True
 
     def st(self, constr):
         """
